@@ -312,4 +312,39 @@ theorem diffOrig_empty_ub (a : List β) (ha : a ≠ []) : diffOrig deq dlt a [] 
 
 end Sets
 
+/-! ## false discovery rate (StatTools::computeFdr, repaired) -/
+
+/-- `computeFdr` never reads or writes out of range and answers the Benjamini–Hochberg adjustment
+along the ranking it sorted: the p-value at position `k` of the decreasing order — rank `n - k` —
+is answered `p·n/(n - k)` (`IsFdrVia` is the predicate the driver evaluates on the implementation;
+equal p-values may be ranked in any order) -/
+theorem fdr_spec (p : List ℝ) :
+    ∃ out, computeFdr p = .ok out ∧ IsFdrVia p out ((sortPValues p).map (·.2)) := computeFdr_spec p
+
+/-- for pairwise distinct p-values: `fdrᵢ = pᵢ·n / rank(pᵢ)`, `rank(pᵢ) = #{j | pⱼ ≤ pᵢ}` -/
+theorem fdr_rank_formula (p : List ℝ) (hnd : p.Nodup) :
+    ∃ out, computeFdr p = .ok out ∧ out.length = p.length ∧
+      ∀ (i : Nat) (x : ℝ), p[i]? = some x →
+        out[i]? = some (x * (p.length : ℝ) / ((p.countP (fun y => decide (y ≤ x)) : Nat) : ℝ)) :=
+  computeFdr_rank p hnd
+
+/-- witness of the defect: before the repair every entry was `pᵢ·n/(i+1)` — the divisor is the
+position in the input, not the rank -/
+theorem fdrOrig_divides_by_index (p : List ℝ) :
+    ∃ out, computeFdrOrig p = .ok out ∧ out.length = p.length ∧
+      ∀ (i : Nat) (x : ℝ), p[i]? = some x → out[i]? = some (x * (p.length : ℝ) / ((i : ℝ) + 1)) :=
+  computeFdrOrig_spec p
+
+/-- … e.g. the larger of two p-values, listed first, was doubled although its rank is 2 -/
+theorem fdrOrig_witness : ∃ out, computeFdrOrig ([4/100, 1/100] : List ℝ) = .ok out ∧ out[0]? = some (8/100) := by
+  obtain ⟨out, h, -, h2⟩ := computeFdrOrig_spec [4/100, 1/100]
+  refine ⟨out, h, ?_⟩
+  rw [h2 0 (4/100) rfl]; norm_num
+
+example : ∃ out, computeFdr ([4/100, 1/100] : List ℝ) = .ok out ∧ out[0]? = some (4/100) := by
+  obtain ⟨out, h, -, h2⟩ := computeFdr_rank [4/100, 1/100] (by norm_num)
+  refine ⟨out, h, ?_⟩
+  rw [h2 0 (4/100) rfl]
+  norm_num [List.countP_cons]
+
 end Bpp.C07
